@@ -119,9 +119,32 @@ impl Response for Arbitrary<'_> {
     }
 }
 
+/// Writes a string as string response data: enclosed in double quotes, with
+/// every embedded double quote doubled (IEEE 488.2, 8.7.8).
+async fn write_quoted(f: &mut impl Write, s: &str) -> Result<(), Error> {
+    let bytes = s.as_bytes();
+    let mut start = 0;
+    let mut pos = 0;
+
+    f.write_char('"').await?;
+
+    while pos < bytes.len() {
+        if bytes[pos] == b'"' {
+            // Write everything up to and including the quote, then the quote again.
+            f.write_bytes(&bytes[start..=pos]).await?;
+            f.write_char('"').await?;
+            start = pos + 1;
+        }
+        pos += 1;
+    }
+
+    f.write_bytes(&bytes[start..]).await?;
+    f.write_char('"').await
+}
+
 impl Response for &str {
     async fn write_response(&self, f: &mut impl Write) -> Result<(), Error> {
-        write!(f, "\"{self}\"").await
+        write_quoted(f, self).await
     }
 }
 
@@ -225,7 +248,7 @@ impl Response for f64 {
 
 impl<const N: usize> Response for heapless::String<N> {
     async fn write_response(&self, f: &mut impl Write) -> Result<(), Error> {
-        write!(f, "\"{}\"", self.as_str()).await
+        write_quoted(f, self.as_str()).await
     }
 }
 
@@ -244,7 +267,7 @@ impl<const N: usize, T: Response> Response for heapless::Vec<T, N> {
 #[cfg(feature = "std")]
 impl Response for std::string::String {
     async fn write_response(&self, f: &mut impl Write) -> Result<(), Error> {
-        write!(f, "\"{}\"", self.as_str()).await
+        write_quoted(f, self.as_str()).await
     }
 }
 
